@@ -50,9 +50,14 @@ fn classify(bt: &str) -> (bool, String) {
         if sym.contains("pmverif::obs") {
             continue;
         }
-        let lib = sym.contains("pmtiles2::") || at.contains("/repo/src/") || at.contains("repo/src/");
-        let har = sym.contains("pmverif::") || at.contains("harness/src/");
-        if lib && !har {
+        // Source paths decide (a library generic instantiated with a harness stream type carries both
+        // crate names in its symbol); symbol prefixes are the fallback when a frame has no path.
+        let path_lib = at.contains("repo/src/");
+        let path_har = at.contains("harness/src/");
+        let s0 = sym.trim_start_matches('<');
+        let lib = path_lib || (!path_har && s0.starts_with("pmtiles2::"));
+        let har = path_har || (!path_lib && s0.starts_with("pmverif::"));
+        if lib {
             let f = at.rsplit('/').next().unwrap_or("").split(':').next().unwrap_or("").to_string();
             return (false, f);
         }
@@ -80,6 +85,10 @@ pub fn install_panic_hook() {
         let (mut harness, mut frame) = classify(&bt);
         if file.contains("harness/src/") {
             harness = true;
+        } else if file.contains("repo/src/") {
+            // the panic site itself lies in the crate under test
+            harness = false;
+            frame = file.rsplit('/').next().unwrap_or("").to_string();
         }
         if frame.is_empty() || frame == "?" {
             frame = file.rsplit('/').next().unwrap_or("").to_string();
